@@ -5,9 +5,26 @@ from ..elab import elaborate, eval_function, Elab
 AD = "litedram.frontend.adapter"
 
 
+def cdc_params(ctx):
+    """(names, defaults) of the constructor parameters of LiteDRAMNativePortCDC after the two ports"""
+    import ast as _a
+    cn = ctx.repo.module(AD).classes.get("LiteDRAMNativePortCDC")
+    for fn in (cn.body if cn is not None else []):
+        if isinstance(fn, _a.FunctionDef) and fn.name == "__init__":
+            names = [a.arg for a in fn.args.args][3:]
+            alln = [a.arg for a in fn.args.args]
+            dfl = {}
+            for a_, d_ in zip(alln[len(alln) - len(fn.args.defaults):], fn.args.defaults):
+                if isinstance(d_, _a.Constant):
+                    dfl[a_] = d_.value
+            return names, dfl
+    return [], {}
+
+
 def cdc_view(ctx, mode="both"):
+    names, _ = cdc_params(ctx)
     return elab(ctx, AD, "LiteDRAMNativePortCDC", overrides={"port_from.mode": Const(mode), "port_to.mode": Const(mode)},
-                kwargs={"cmd_depth": Sym("cmd_depth"), "wdata_depth": Sym("wdata_depth"), "rdata_depth": Sym("rdata_depth")})
+                kwargs={n: Sym(n) for n in names})
 
 
 def layout_of(o):
@@ -33,6 +50,9 @@ def run(ctx):
     ob5 = ctx.ob("C08.5", "read data returned by the controller is pushed without observing `ready`, so the crossing's read FIFO must be protected "
                           "by a reservation / credit on the command path (or be provably large enough); and get_port must not shrink it below "
                           "the adapter's default", 2)
+    ob6 = ctx.ob("C08.6", "each crossing is sized by the depth parameter of its own channel, and the defaults keep the write-data FIFO at least as deep as "
+                          "the command FIFO plus the bank machine's command buffer: the controller takes write data without looking at wdata.valid, so the data "
+                          "of every accepted-but-unexecuted write must already be inside the write-data FIFO", 3)
     v = cdc_view(ctx)
     cdcs = [o for o in v.d.objs if o.cls == "ClockDomainCrossing"]
     pls = [[key(a) for a in o.args] for o in v.d.objs if o.cls == "Pipeline"]
@@ -46,6 +66,7 @@ def run(ctx):
         "rdata": ("port_to.rdata", "port_from.rdata", "port_to.clock_domain", "port_from.clock_domain", "rdata_description", [Sym("port_from.data_width")]),
     }
     used = set()
+    depth_of = {}
     for nm, (src, dst, cdf, cdt, desc, dargs) in want.items():
         pl = [p for p in pls if len(p) == 3 and p[0] == src and p[2] == dst]
         if not pl:
@@ -59,6 +80,9 @@ def run(ctx):
         c = c[0]
         f, t = key(c.kwargs.get("cd_from")), key(c.kwargs.get("cd_to"))
         ob1.instance("%s crossing" % nm, {"pipeline": pl[0], "cd_from": f, "cd_to": t, "depth": key(c.kwargs.get("depth"))})
+        dk_ = key(c.kwargs.get("depth")) if c.kwargs.get("depth") is not None else None
+        ob6.instance("%s crossing depth" % nm, dk_)
+        depth_of[nm] = (dk_, c)
         if (f, t) != (cdf, cdt):
             ob1.refute("direction:%s" % nm, "%s crosses from %s to %s, expected %s -> %s" % (nm, f, t, cdf, cdt), c.loc)
         # layout agreement
@@ -144,6 +168,30 @@ def run(ctx):
                     ob5.refute("get_port-depth:%s:%s" % (k_, tag), "get_port builds the crossing with %s=%s, not provably >= the adapter's default %d: "
                                "the %s FIFO is the only storage for data the controller returns without flow control" %
                                (k_, key(x), defaults[k_], k_.split("_")[0]), c.loc)
+    # C08.6: own parameter per channel, default sizing
+    pnames, dfl = cdc_params(ctx)
+    import ast as _ast2
+    for nm, (dk_, c_) in depth_of.items():
+        others = [n2 for n2, (d2, _) in depth_of.items() if n2 != nm and d2 == dk_]
+        if dk_ not in pnames:
+            ob6.refute("depth-param:%s" % nm, "the %s crossing is built with depth %s, which is not one of the adapter's depth parameters %s" % (nm, dk_, pnames), c_.loc)
+        elif others and nm < others[0]:
+            ob6.refute("depth-shared:%s+%s" % (nm, others[0]), "the %s and %s crossings are both sized by the parameter %s: one of the two ignores its own parameter, and the "
+                       "relation between command and data FIFO depths that keeps write data ahead of its commands is lost" % (nm, others[0], dk_), c_.loc)
+    cs_ = ctx.repo.module("litedram.core.controller").classes.get("ControllerSettings")
+    cbd = None
+    for fn_ in (cs_.body if cs_ is not None else []):
+        if isinstance(fn_, _ast2.FunctionDef) and fn_.name == "__init__":
+            names_ = [a.arg for a in fn_.args.args]
+            for a_, d_ in zip(names_[len(names_) - len(fn_.args.defaults):], fn_.args.defaults):
+                if a_ == "cmd_buffer_depth" and isinstance(d_, _ast2.Constant):
+                    cbd = d_.value
+    ob6.instance("default depths", {"adapter": dfl, "controller cmd_buffer_depth": cbd})
+    cd_, wd_ = dfl.get(depth_of.get("cmd", (None,))[0]), dfl.get(depth_of.get("wdata", (None,))[0])
+    if ob6.need(cd_ is not None and wd_ is not None and cbd is not None, "default depths of the crossing / the controller's command buffer not found"):
+        if cd_ + cbd > wd_:
+            ob6.refute("default-sizing", "default command-crossing depth %d + bank command buffer %d > write-data crossing depth %d: write commands can run further ahead than "
+                       "the write-data FIFO holds data for, and the controller pops an empty FIFO" % (cd_, cbd, wd_), None)
     # reservation on the command path?
     cmdc = [o for o in cdcs if "cmd" in str(o)]
     res = any("rdata" in " ".join(support(l.value) if l.value is not None and isinstance(l.value, V) else []) for l in v.leaves)
